@@ -15,6 +15,7 @@ import Mhd.Proofs.ReqLine
 import Mhd.Proofs.ReqField
 import Mhd.Proofs.ReqStable
 import Mhd.Proofs.ReqRoundtrip
+import Mhd.Proofs.ReqLineRoundtrip
 
 namespace Mhd.C02
 open Mhd.Req
@@ -137,7 +138,53 @@ theorem strings_stable (lvl : Int) (fieldStart : Nat) (s : HS) (hs : HSP.Inv s) 
   rw [this.2.2 i h1 h2]
   exact Array.getElem?_append_left (by have := hs.hp; omega)
 
-/-! ## (3) round trip -/
+/-! ## (3) round trip
+
+  Full statement (DESIGN.md Appendix B `Req.roundtrip`): for every level, every request `r` and
+  every rendering `ρ` admissible at that level, `appView (parse (render r lvl ρ)) = r`.
+  Proved here, for **every segmentation**:
+  * `reqline_roundtrip_partial` — the request line in its canonical rendering
+    (`method SP target SP version CRLF`) at every level ≥ 0;
+  * `fields_roundtrip_partial` — the header section in its canonical rendering
+    (`name ": " value CRLF`) at **every** level, any number of fields.
+  Missing for the full statement (carried by the correspondence run only — bounded-exhaustive
+  white-box differential + the daemon engine with rendered requests and the semantic oracle):
+  levels < 0 for the request line (merged whitespace blocks); the non-canonical renderings
+  (HT / multiple separators, bare LF, leading empty lines, optional whitespace around field
+  values, folding, bare CR / NUL replacement); percent/plus decoding of target and arguments;
+  cookies. -/
+
+/-- a request-line token character: not CR, LF, SP, HT, VT, FF, NUL -/
+abbrev TokenChar := RLP.rplain
+
+/-- **Request line: the application is given exactly the method, target and version sent.**
+    Level ≥ 0, canonical rendering, any segmentation.  The bytes `m SP t SP v CRLF` (method `m`
+    and version `v` of token characters without '?', target `t` of token characters, `v`
+    a supported `HTTP/1.x`) arrive in any chunks at the read position `rb` of a fresh
+    connection buffer.  Then the parser finishes with the request line `r`: its three strings
+    read back as `m`, `t`, `v`, each NUL-terminated; the method enum is that of `m`; the
+    position of the first '?' of `t` is remembered (where the arguments start); no whitespace
+    is counted in the URI; exactly the line is consumed. -/
+theorem reqline_roundtrip_partial (lvl : Int) (hl : 0 ≤ lvl) (buf : Bytes) (rb : Nat) (chunks : List Bytes)
+    (m t v : List UInt8) (hv : Int) (hrb : rb ≤ buf.size) (hm0 : m ≠ []) (ht0 : t ≠ [])
+    (hm : ∀ c ∈ m, TokenChar c ∧ c ≠ 63) (ht : ∀ c ∈ t, TokenChar c) (hvl : v.length = 8)
+    (hvc : ∀ c ∈ v, TokenChar c ∧ c ≠ 63) (hpv : parseHttpVersion v = .ok hv)
+    (hbuf : RLP.BufIs (buf ++ Scanner.flatten chunks) rb (m ++ [cSP] ++ t ++ ([cSP] ++ v ++ [cCR, cLF]))) :
+    let sc := rlScanner (RLFlags.ofLevel lvl)
+    ∃ r, sc.feedAll (sc.run (RL.init buf rb)) chunks = .done (.ok r) ∧
+      RLP.BufIs r.buf r.method (m ++ [0]) ∧ RLP.BufIs r.buf r.tgt (t ++ [0]) ∧ RLP.BufIs r.buf r.version (v ++ [0]) ∧
+      r.method = rb ∧ r.methodLen = m.length ∧ r.mthd = stdMethodOf m ∧ r.tgtLen = t.length ∧
+      r.qmark = (RLP.firstQ t).map (r.tgt + ·) ∧ r.httpVer = hv ∧ r.numWs = 0 ∧
+      r.rb = rb + (m.length + t.length + 12) := by
+  intro sc
+  have hB : (RLFlags.ofLevel lvl).wspBlocks = false := by
+    simp only [RLFlags.ofLevel, Mhd.Gen.Discipline.rl_wsp_blocks, decide_eq_false_iff_not]; omega
+  have hrb' : rb ≤ (buf ++ Scanner.flatten chunks).size := by rw [Array.size_append]; omega
+  obtain ⟨r, hr, ok⟩ := RLP.reqline_roundtrip (RLFlags.ofLevel lvl) hB _ rb m t v hv hrb' hm0 ht0 hm ht hvl hvc hpv hbuf
+  have vw := ok.views rfl rfl hvl hbuf
+  refine ⟨r, ?_, vw.1, vw.2.1, vw.2.2, ok.e_method, ok.e_ml, ok.e_mt, ok.e_tl, ?_, ok.e_hv, ok.e_nw, ok.e_rb⟩
+  · rw [reqline_split_independent lvl buf rb hrb chunks]; exact hr
+  · rw [ok.e_q, ok.e_tgt]
 
 /-- **Field lines: the application sees exactly the fields the client sent.**  For every
     level, any list of well-formed fields (`HSP.FieldWF`: non-empty name of token-like
@@ -149,7 +196,7 @@ theorem strings_stable (lvl : Int) (fieldStart : Nat) (s : HS) (hs : HSP.Inv s) 
     dropped, merged or truncated — whose name and value read back from the final buffer
     are the bytes sent; `header_size` counts exactly the bytes of the head; the unconsumed
     bytes (body / next request) follow at `read_buffer`. -/
-theorem fields_roundtrip (lvl : Int) (fieldStart : Nat) (fields : List HSP.Field) (s : HS) (chunks : List Bytes)
+theorem fields_roundtrip_partial (lvl : Int) (fieldStart : Nat) (fields : List HSP.Field) (s : HS) (chunks : List Bytes)
     (hs : HSP.Inv s) (hs2 : HSP.Inv2 s) (hfresh : HSP.Fresh s) (hwf : ∀ f ∈ fields, HSP.FieldWF f)
     (hbuf : HSP.BufIs (s.buf ++ Scanner.flatten chunks) s.rb (HSP.renderFields fields ++ [cCR, cLF])) :
     let sc := hsScanner (FLFlags.ofLevel lvl) fieldStart
@@ -205,5 +252,15 @@ example : HSP.FieldWF ([65, 98], [120, 32, 121]) := by
   · intro c hc; simp at hc; rcases hc with rfl | rfl | rfl <;> first | (left; unfold HSP.plain; decide) | (right; left; decide)
   · intro c hc; simp at hc; subst hc; unfold HSP.plain; decide
   · intro hne; simp [cSP, cHT]
+
+
+/-- the hypotheses of `reqline_roundtrip_partial` for `GET /a?x HTTP/1.1` -/
+example : parseHttpVersion [72, 84, 84, 80, 47, 49, 46, 49] = .ok Mhd.Gen.Http.ver11 := by rfl
+
+example : (∀ c ∈ [71, 69, 84], TokenChar c ∧ c ≠ 63) ∧ (∀ c ∈ [47, 97, 63, 120], TokenChar c) ∧
+    RLP.firstQ [47, 97, 63, 120] = some 2 := by
+  refine ⟨?_, ?_, by decide⟩
+  · intro c hc; simp at hc; rcases hc with rfl | rfl | rfl <;> (unfold TokenChar RLP.rplain; decide)
+  · intro c hc; simp at hc; rcases hc with rfl | rfl | rfl | rfl <;> (unfold TokenChar RLP.rplain; decide)
 
 end Mhd.C02
